@@ -18,11 +18,22 @@ package wsmux_test
 //   bytes      every truncation and every single-byte structural replacement of the alphabet's
 //              messages: Decode never panics and answers exactly one of
 //              {frames with consumed > 0, need-more (nil,0,nil), error}.
+//   retention  every sequence of <= L Encode / Decode calls on ONE adapter with TWO sessions
+//              (outbound frame type x reply token x session), every Encode result retained as
+//              returned (the gateway queues session A's bytes for writing while session B's
+//              response is encoded) and judged after every later call: still byte-identical to
+//              what was returned, and still the response for its own reply token. The run is
+//              pinned to GOMAXPROCS=1 (harness.json) and collects garbage only between
+//              sequences, so that a recycled buffer is handed from one call to the next
+//              deterministically; the oracle does not depend on that.
 
 import (
+	"bytes"
 	"encoding/json"
 	"fmt"
 	"reflect"
+	"runtime"
+	"runtime/debug"
 	"sort"
 	"strings"
 	"testing"
@@ -79,11 +90,12 @@ func c24aFrameName(f frame.Frame) string {
 }
 
 type c24aReplay struct {
-	Kind  string    `json:"kind"` // "sequence" | "encode" | "bytes"
+	Kind  string    `json:"kind"` // "sequence" | "encode" | "bytes" | "retention"
 	Seq   []c24aMsg `json:"sequence,omitempty"`
 	Frame string    `json:"frame,omitempty"`
 	ID    string    `json:"id,omitempty"`
 	Doc   string    `json:"doc,omitempty"`
+	Calls []string  `json:"calls,omitempty"` // retention: labels of c24aRetentionOps
 }
 
 type c24aViol struct{ fp, msg string }
@@ -153,6 +165,13 @@ func c24aOutbound() map[string]frame.Frame {
 		"EVENT":      &frame.EventPacket{Framer: h, Id: "e", Type: "t", Timestamp: 7, Data: []byte(`{"a":1}`)},
 		"DISCONNECT": &frame.DisconnectPacket{ReasonCode: 2, Reason: "r"},
 	}
+}
+
+// c24aOutboundWithLong adds a long RECV used only by the retention section.
+func c24aOutboundWithLong() map[string]frame.Frame {
+	m := c24aOutbound()
+	m["RECV-long"] = &frame.RecvPacket{MessageID: 5, MessageSeq: 6, ChannelID: strings.Repeat("c", 300), ChannelType: 2, FromUID: "u", Payload: bytes.Repeat([]byte{0xab}, 1025)}
+	return m
 }
 
 // c24aCheckEncode: the response for reply token id carries id; notifications carry none.
@@ -245,6 +264,165 @@ func c24aCheckBytes(doc []byte) (string, *c24aViol) {
 	}
 }
 
+// ------------------------------------------------------------------ retention of Encode results
+
+type c24aOp struct {
+	Label string
+	Typ   string // outbound frame type; "" = an inbound Decode
+	ID    string
+	Sess  int
+	Doc   string
+}
+
+func c24aRetentionOps() []c24aOp {
+	var ops []c24aOp
+	for _, typ := range []string{"CONNACK", "SENDACK", "PONG", "RECV", "EVENT", "DISCONNECT"} {
+		for _, id := range []string{"req-a", "req-b"} {
+			for sess := 0; sess < 2; sess++ {
+				if (typ == "RECV" || typ == "EVENT" || typ == "DISCONNECT") && id == "req-b" {
+					continue // notifications carry no id: one token is enough
+				}
+				ops = append(ops, c24aOp{Label: fmt.Sprintf("Encode:%s#%s@s%d", typ, id, sess+1), Typ: typ, ID: id, Sess: sess})
+			}
+		}
+	}
+	ops = append(ops, c24aOp{Label: "Encode:PONG#long@s1", Typ: "PONG", ID: strings.Repeat("i", 200), Sess: 0})
+	ops = append(ops, c24aOp{Label: "Encode:RECV-long#-@s2", Typ: "RECV-long", ID: "-", Sess: 1})
+	ops = append(ops, c24aOp{Label: "Decode:send#x@s1", Sess: 0, Doc: `{"jsonrpc":"2.0","method":"send","id":"x","params":{"channelId":"g","channelType":2,"payload":"aGk="}}`})
+	ops = append(ops, c24aOp{Label: "Decode:garbage@s2", Sess: 1, Doc: `{"jsonrpc":"2.0",]`})
+	return ops
+}
+
+// c24aRunRetention executes one sequence on a fresh adapter with two sessions.
+func c24aRunRetention(seq []c24aOp, outb map[string]frame.Frame, judged *int64) (string, *c24aViol) {
+	ad := wsmux.New()
+	sess := []session.Session{c24aSession(), c24aSession()}
+	for _, s := range sess { // the protocol is selected by the first inbound message
+		if _, _, err := ad.Decode(s, []byte(`{"jsonrpc":"2.0","method":"ping","id":"sel"}`)); err != nil {
+			return "harness", &c24aViol{"C24:adapter-rejects-PING", "protocol selection ping rejected: " + err.Error()}
+		}
+		ad.TakeReplyTokens(s, 1)
+	}
+	type held struct {
+		op     c24aOp
+		out    []byte // as returned by Encode
+		copyOf []byte // the harness's copy, taken when Encode returned
+	}
+	var hs []held
+	names := func(n int) string {
+		l := make([]string, n)
+		for i := range l {
+			l[i] = seq[i].Label
+		}
+		return "[" + strings.Join(l, ", ") + "]"
+	}
+	for k, op := range seq {
+		var out []byte
+		var err error
+		if p := ev.Recover(func() {
+			if op.Typ == "" {
+				frames, _, _ := ad.Decode(sess[op.Sess], []byte(op.Doc))
+				ad.TakeReplyTokens(sess[op.Sess], len(frames))
+				return
+			}
+			out, err = ad.Encode(sess[op.Sess], outb[op.Typ], session.OutboundMeta{ReplyToken: op.ID})
+		}); p != nil {
+			return "panic", &c24aViol{"C24:adapter-panic-in-call-sequence", fmt.Sprintf("call %d of %s: %v", k+1, names(k+1), p)}
+		}
+		if op.Typ != "" && err != nil {
+			return "error", &c24aViol{"C24:adapter-encode-error-" + strings.TrimSuffix(op.Typ, "-long"), fmt.Sprintf("call %d of %s: %v", k+1, names(k+1), err)}
+		}
+		for i, h := range hs {
+			*judged++
+			if !bytes.Equal(h.out, h.copyOf) {
+				by := "encode"
+				if op.Typ == "" {
+					by = "decode"
+				}
+				return "retained-result-changed", &c24aViol{"C24:adapter-encode-result-overwritten-by-later-" + by,
+					fmt.Sprintf("sequence %s: the bytes Encode returned in call %d were %q and are, after call %d, %q", names(k+1), i+1, h.copyOf, k+1, h.out)}
+			}
+		}
+		if op.Typ != "" {
+			hs = append(hs, held{op: op, out: out, copyOf: append([]byte(nil), out...)})
+		}
+	}
+	// meaning: every retained response is still the response for its own reply token
+	for i, h := range hs {
+		var doc map[string]json.RawMessage
+		if err := json.Unmarshal(h.out, &doc); err != nil {
+			return "not-json", &c24aViol{"C24:adapter-retained-encoding-wrong", fmt.Sprintf("sequence %s: bytes of call %d are not JSON: %q", names(len(seq)), i+1, h.out)}
+		}
+		typ := strings.TrimSuffix(h.op.Typ, "-long")
+		if typ == "CONNACK" || typ == "SENDACK" || typ == "PONG" {
+			var got string
+			if json.Unmarshal(doc["id"], &got) != nil || got != h.op.ID {
+				return "wrong-id", &c24aViol{"C24:adapter-retained-encoding-wrong", fmt.Sprintf("sequence %s: the response of call %d was made for reply token %q, its bytes are %q", names(len(seq)), i+1, h.op.ID, h.out)}
+			}
+		} else {
+			var method string
+			_ = json.Unmarshal(doc["method"], &method)
+			if want := map[string]string{"RECV": "recv", "EVENT": "event", "DISCONNECT": "disconnect"}[typ]; method != want {
+				return "wrong-method", &c24aViol{"C24:adapter-retained-encoding-wrong", fmt.Sprintf("sequence %s: call %d encoded a %s notification, its bytes are %q", names(len(seq)), i+1, typ, h.out)}
+			}
+		}
+	}
+	return fmt.Sprintf("intact:len%d", len(seq)), nil
+}
+
+func c24aRetention(r *ev.R, outb map[string]frame.Frame) {
+	defer debug.SetGCPercent(debug.SetGCPercent(-1)) // the collector runs between sequences only
+	ops := c24aRetentionOps()
+	rot := int(((r.Seed() % int64(len(ops))) + int64(len(ops))) % int64(len(ops)))
+	menu := append(append([]c24aOp(nil), ops[rot:]...), ops[:rot]...) // VERIF_SEED permutes the order only
+	maxLen := ev.Pick(r, 3, 4)
+	e := r.NewEnum("adapter-encode-retention")
+	var judged int64
+	n := 0
+	// shortest sequences first, so that the first counterexample reported is a shortest one
+	for length := 1; length <= maxLen; length++ {
+		ix := make([]int, length)
+		seq := make([]c24aOp, length)
+		for {
+			for i := range seq {
+				seq[i] = menu[ix[i]]
+			}
+			out, v := c24aRunRetention(seq, outb, &judged)
+			if n++; n%128 == 0 {
+				runtime.GC()
+			}
+			e.CaseByConstruction(length >= 2, out)
+			if v != nil {
+				calls := make([]string, length)
+				for i, o := range seq {
+					calls[i] = o.Label
+				}
+				r.Violation(ev.Violation{Fingerprint: v.fp, Message: v.msg[:min(len(v.msg), 1500)], System: "adapter-encode-retention", Replay: c24aReplay{Kind: "retention", Calls: calls}})
+			}
+			k := length - 1
+			for k >= 0 {
+				if ix[k]++; ix[k] < len(menu) {
+					break
+				}
+				ix[k] = 0
+				k--
+			}
+			if k < 0 {
+				break
+			}
+		}
+	}
+	labels := make([]string, len(ops))
+	for i, o := range ops {
+		labels[i] = o.Label
+	}
+	e.Done(true, map[string]any{"calls": labels, "max_length": maxLen, "retained_results_judged": judged},
+		"every sequence of 1..max_length Encode/Decode calls on one adapter with two sessions; every Encode result retained as returned and judged after every later call and at the end; non-trivial = at least one call is made while a result is retained")
+	r.Guard("adapter-retention-gomaxprocs-1", runtime.GOMAXPROCS(0) == 1, "GOMAXPROCS=%d (harness.json pins the run to 1)", runtime.GOMAXPROCS(0))
+	r.Guard("adapter-retention-count", e.Evals() >= 8000 && judged >= 8000, "sequences: %d, retained results judged after a later call: %d", e.Evals(), judged)
+	r.Assume("adapter retention: calls are made one at a time on one goroutine; overlapping Encode calls of concurrently served sessions are not enumerated")
+}
+
 func TestVerifC24Adapter(t *testing.T) {
 	r := ev.Start(t, "C24")
 	defer r.Finish()
@@ -266,6 +444,22 @@ func TestVerifC24Adapter(t *testing.T) {
 			out, v = c24aCheckEncode(rp.Frame, outb[rp.Frame], rp.ID)
 		case "bytes":
 			out, v = c24aCheckBytes([]byte(rp.Doc))
+		case "retention":
+			byLabel := map[string]c24aOp{}
+			for _, o := range c24aRetentionOps() {
+				byLabel[o.Label] = o
+			}
+			var seq []c24aOp
+			for _, l := range rp.Calls {
+				o, ok := byLabel[l]
+				if !ok {
+					r.HarnessError("replay: unknown call %q", l)
+					return
+				}
+				seq = append(seq, o)
+			}
+			var judged int64
+			out, v = c24aRunRetention(seq, c24aOutboundWithLong(), &judged)
 		}
 		fmt.Printf("replay %s -> %s\n", rp.Kind, out)
 		e := r.NewEnum("replay")
@@ -367,5 +561,8 @@ func TestVerifC24Adapter(t *testing.T) {
 	e3.Done(true, map[string]any{"documents": len(alpha), "replacement_bytes": len(repl)}, "every truncation and single-byte replacement (positions >= 1) of the alphabet's messages on a fresh connection")
 	r.Guard("adapter-bytes-outcomes", e3.Outcome("frames") > 0 && e3.Outcome("need-more") > 0 && e3.Outcome("error") > 0,
 		"frames=%d need-more=%d error=%d", e3.Outcome("frames"), e3.Outcome("need-more"), e3.Outcome("error"))
+	// ---- retention of Encode results across later calls
+	c24aRetention(r, c24aOutboundWithLong())
+
 	r.Assume("the gateway takes reply tokens in lockstep with Decode (gateway/core.dispatchInboundFrames: TakeReplyTokens(len(frames)) right after each Decode)")
 }
